@@ -65,6 +65,8 @@ def cases(L, tier, seed):
             r, cc = np.nonzero(Ci)
             rows = np.repeat(r, Ci[r, cc]); cols = np.repeat(cc, Ci[r, cc])
             yield RT.Builder('mle'), B.mle, dict(C=sp.coo_matrix((np.ones(len(rows), dtype=int), (rows, cols)), shape=Ci.shape)), ('mle-coo-duplicates', C.tolist())
+            if not all(ok for _, ok in RT.Builder('mle').requires(L, dict(C=np.array(C, dtype=float)), None)):
+                continue            # outside the estimator's domain (not strongly connected): nothing to compare
             try:
                 ref = B.mle(np.array(C, dtype=float))
             except Exception:
